@@ -34,6 +34,8 @@ BASES = {
     'u': ('t:u', ['5', '2020-01-01', 'true']),
     'small': ('t:small', ['1', '50', '99']),
     'pu': ('t:pu', ['5', '42', '2020-01-01', 'true']),
+    # the union restricted twice, a pattern at each step: both apply on encode
+    'pu2': ('t:pu2', ['5', '42', 'true']),
     # pattern facets on non-string bases: the canonical form of the typed value must match on encode
     'pint': ('t:pint', ['123', '456', '900']),
     'pdec': ('t:pdec', ['1.50', '12.25', '0.75']),
@@ -45,6 +47,7 @@ GLOBAL_TYPES = r'''<xs:simpleType name="ilist"><xs:list itemType="xs:int"/></xs:
 <xs:simpleType name="riu"><xs:restriction base="t:iu"><xs:pattern value="[0-9]{1,2}|[0-9]{4}-[0-9]{2}-[0-9]{2}"/></xs:restriction></xs:simpleType>
 <xs:simpleType name="ou"><xs:union memberTypes="t:riu xs:boolean"/></xs:simpleType>
 <xs:simpleType name="pu"><xs:restriction base="t:ou"><xs:pattern value="[0-9]+|[0-9-]+|true|false"/></xs:restriction></xs:simpleType>
+<xs:simpleType name="pu2"><xs:restriction base="t:pu"><xs:pattern value=".{1,4}"/></xs:restriction></xs:simpleType>
 <xs:simpleType name="pint"><xs:restriction base="xs:int"><xs:pattern value="[0-9]{3}"/></xs:restriction></xs:simpleType>
 <xs:simpleType name="pdec"><xs:restriction base="xs:decimal"><xs:pattern value="[0-9]+\.[0-9]{2}"/></xs:restriction></xs:simpleType>
 <xs:simpleType name="small"><xs:restriction base="xs:integer"><xs:minInclusive value="0"/><xs:maxInclusive value="99"/></xs:restriction></xs:simpleType>'''
@@ -352,7 +355,7 @@ def mutate(rng, data):
                 v = cont[key]
                 cont[key] = [copy.deepcopy(v), copy.deepcopy(v)]
         elif op == 'retype':
-            cont[key] = rng.choice(['zz', 123456789012, -1.5, None, True, [], {}, [1, 'a'], '2020-13-01', ' ', 123, '123', 1234, 100, '2020-1-1'])
+            cont[key] = rng.choice(['zz', 123456789012, -1.5, None, True, [], {}, [1, 'a'], '2020-13-01', ' ', 123, '123', 1234, 100, '2020-1-1', 12345, '2020-01-01', 12345, False])
         elif op == 'reorder':
             if isinstance(cont, list):
                 rng.shuffle(cont)
